@@ -40,7 +40,16 @@ def family(err):
 
 
 def collect(ctx):
+    prog = os.path.join(ctx.run_dir, "c03.progress")
+    if os.path.exists(prog):
+        os.remove(prog)
     ok, out = ctx.gv("c03")
+    if not ok and os.path.exists(prog):
+        # the process died while the typer was on this hand-written ill-typed program (stack overflow)
+        cid, kind, esrc = (open(prog).read().rstrip("\n").split("\t") + ["", ""])[:3]
+        ctx.report({"oracle": "ill-typed", "kind": kind, "outcome": "abort"},
+                   "an ill-typed program kills the compiler process (stack overflow in the typer)",
+                   {"id": cid, "src": vlib.unesc(esrc), "harness_output": out[-300:]})
     rows = vlib.read_tsv(os.path.join(ctx.run_dir, "c03.cases.tsv")) if ok else []
     progs, feats, kinds = {}, "", ""
     for r in rows:
